@@ -13,6 +13,7 @@ import os
 import shutil
 import tempfile
 
+import atexit
 import h5py
 import numpy as np
 
@@ -475,16 +476,41 @@ def _check_file(path, tru, errval, first, rec, case):
         _check_globals(browser, tru, rec, case)
 
 
-def synthetic_case(seed, idx, tier, rec):
+_SAME_PATH = []
+
+
+def cleanup():
+    '''Remove the directory of the re-used path (shards leave through
+    os._exit: the caller does this explicitly).'''
+    while _SAME_PATH:
+        shutil.rmtree(_SAME_PATH.pop(), ignore_errors=True)
+
+
+def synthetic_case(seed, idx, tier, rec, previous=False):
     '''Generate ONE random HDF5 file following the documented layout from a
     known ground truth, read it back with the Reader and every applicable
     Picker call (error value NaN, then 0) and compare with the ground truth.'''
     rng = core.rng_for(seed, 'C10', 'ap3', idx)
     case = {'mode': 'ap3', 'seed': seed, 'idx': idx, 'tier': tier}
+    if previous and idx > 0:
+        # (replay) the file that the same process read at this path before
+        synthetic_case(seed, idx - 1, tier, core.Recorder(), previous=False)
     tru = _Truth(rng)
     tmpdir = tempfile.mkdtemp(prefix='vf-ap3-', dir=core.fast_tmp())
     try:
+        # two cases out of three are written to the path that the previous
+        # case of this process used: the same job run again, its output file
+        # rewritten and opened by new Reader / Picker objects
+        samepath = idx % 3 != 0
         path = os.path.join(tmpdir, f'case{idx}.hdf')
+        if samepath:
+            if not _SAME_PATH:
+                _SAME_PATH.append(tempfile.mkdtemp(prefix='vf-ap3-same-',
+                                                   dir=core.fast_tmp()))
+                atexit.register(cleanup)
+            path = os.path.join(_SAME_PATH[0], 'results.hdf')
+            if os.path.exists(path):
+                rec.count('ap3_files_rewritten_at_the_same_path')
         with h5py.File(path, 'w') as hfile:
             if rng.random() < 0.2:
                 _write_user(hfile, tru)
